@@ -369,9 +369,17 @@ class TemplatedPlatform(Platform):
             else:
                 return " ".join(opts)
 
+        def port_name(port):
+            # A top-level port is known to the toolchain by the name it has in the netlist, which differs
+            # from `port.name` if the design has several I/O ports with the same name.
+            for name, conn, _dir in self._design.ports:
+                if conn is port:
+                    return name
+            return port.name
+
         def hierarchy(net, separator):
             if isinstance(net, IOPort):
-                return net.name
+                return port_name(net)
             else:
                 return separator.join(self._name_map[net][1:])
 
@@ -413,6 +421,7 @@ class TemplatedPlatform(Platform):
                     trim_blocks=True, lstrip_blocks=True, undefined=jinja2.StrictUndefined)
                 compiled.environment.filters["options"] = options
                 compiled.environment.filters["hierarchy"] = hierarchy
+                compiled.environment.filters["port_name"] = port_name
                 compiled.environment.filters["ascii_escape"] = ascii_escape
                 compiled.environment.filters["tcl_quote"] = tcl_quote
             except jinja2.TemplateSyntaxError as e:
